@@ -488,6 +488,9 @@ static void run_rawscan (FILE *out, const char *hex) {
   } else {
     MIR_scan_string (c, text);
     fprintf (out, "|RS=ok");
+    STAGE ("output-after-rawscan");
+    t2 = text_of (c, &n2);
+    emit_text (out, "T2", t2, n2, NULL, 0);
   }
   STAGE ("done");
 }
